@@ -345,6 +345,15 @@ main(int argc, char **argv)
 		/* engine-split single buffer: the caller only controls the total; use sizes around the documented optimum */
 		if (clayout == TP_LAYOUT_SPLIT1) { c_in = 16384 + 325; c_out = 16384 + 85 + (size_t)cdelta; if (vf_below(&r, 2)) { c_in = 512 + 325 + (size_t)(cdelta + 1); c_out = 512 + 85; } }
 		if (slayout == TP_LAYOUT_SPLIT1) { s_in = 16384 + 325; s_out = 16384 + 85 + (size_t)sdelta; }
+		/* far above the optimum: 32 KiB, around 64 KiB (16-bit boundaries of the offsets), 100 kB, 1 MiB */
+		if (kind != 5 && kind != 6 && vf_below(&r, 8) == 0) {
+			static const size_t huge[6] = { 32768 + 325, 65535, 65536, 65540, 100000, 1048576 };
+			size_t h1 = huge[vf_below(&r, 6)], h2 = huge[vf_below(&r, 6)];
+			if (vf_below(&r, 2)) { c_in = h1; c_out = clayout == TP_LAYOUT_MONO ? h1 : h2; }
+			else { s_in = h1; s_out = slayout == TP_LAYOUT_MONO ? h1 : h2; }
+			vf_stat("huge_buffer_cases", 1);
+			vf_distinct("huge_buffers", "%zu/%zu", h1, h2);
+		}
 		cf = fit_frag(c_in, c_out); sf = fit_frag(s_in, s_out);
 		/* the server must be able to receive what the client may send: the client cannot learn the
 		   server's limit, so keep the server's input at least as large as the client's fragment */
